@@ -3,6 +3,8 @@
 open Model
 open Util
 
+let trunc (s : string) : string = if String.length s > 700 then String.sub s 0 700 ^ "..." else s
+
 let strs (l : char list list) : jv = JL (List.map (fun s -> JS (implode s)) l)
 
 let on (parts : string list) (name : string) (f : unit -> (string * jv) list) : (string * jv) list =
@@ -27,5 +29,37 @@ let run (_prefix : string) (cfg : config) (parts : string list) (_src : string)
            JI (List.fold_left (fun a s -> a + int_of_nat (hook_count s)) 0 cfg.c_prefix_stmts)) ]) in
   let classes =
     on parts "classes" (fun () ->
-      match ast_in with Some t -> [ ("classes", strs (known_classes t)) ] | None -> []) in
-  hooks @ classes
+      match ast_in with Some t -> [ ("classes", strs (known_classes (List.map (fun m -> m.m_src) (List.filter (fun m -> not m.m_operator) cfg.c_methods)) t)) ] | None -> []) in
+  let modified_of (ast_in : node option) (ast_out : node option) : bool =
+    (* the file is modified iff the prologue/hooks are there; the caller passes it explicitly *)
+    List.mem "modified" parts in
+  let directives =
+    on parts "directives" (fun () ->
+      match ast_in, ast_out with
+      | Some i, Some o ->
+          [ ("directives_ok",
+             JB (directives_ok (var_prefix cfg) cfg.c_prefix_stmts (modified_of ast_in ast_out) i o)) ]
+      | _, _ -> []) in
+  let erase_part =
+    on parts "erase" (fun () ->
+      match ast_in, ast_out with
+      | Some i, Some o ->
+          let vp = var_prefix cfg in
+          let plus = plus_enabled cfg in
+          let m = modified_of ast_in ast_out in
+          let ok = erase_ok vp cfg.c_prefix_stmts plus m i o in
+          if ok then [ ("erase_ok", JB true) ]
+          else begin
+            let a = lower plus (erase vp cfg.c_prefix_stmts m o) and b = lower plus i in
+            let path = match first_diff_nospan a b with Some p -> List.map int_of_nat p | None -> [] in
+            let rec at n p = match p, n with
+              | [], _ -> n
+              | i :: p', Node (_, cs) -> (try at (List.nth cs i) p' with _ -> n) in
+            let parent = match List.rev path with _ :: r -> List.rev r | [] -> [] in
+            [ ("erase_ok", JB false);
+              ("erase_diff_path", JL (List.map (fun i -> JI i) path));
+              ("erase_diff_erased", JS (trunc (sexp_string (at a parent))));
+              ("erase_diff_input", JS (trunc (sexp_string (at b parent)))) ]
+          end
+      | _, _ -> []) in
+  hooks @ classes @ directives @ erase_part
